@@ -249,8 +249,27 @@ func propC11(g *G, n int) {
 func propC12(g *G, n int) {
 	for i := 0; i < n; i++ {
 		x := g.decimal()
+		if g.chance(0.15) { // coefficients around bit 113 (the switch to the steering form), any exponent
+			c := new(big.Int).Lsh(big.NewInt(1), 113)
+			switch g.pick(4) {
+			case 0:
+				c.Add(c, big.NewInt(int64(g.pick(5)-2)))
+			case 1:
+				c.Add(c, new(big.Int).SetUint64(g.r.Uint64()))
+			case 2:
+				c.Sub(c, new(big.Int).SetUint64(g.r.Uint64()>>uint(g.pick(64))))
+			default:
+				c.Add(c, new(big.Int).Lsh(new(big.Int).SetUint64(g.r.Uint64()>>16), 64))
+			}
+			if c.Cmp(cmax) > 0 {
+				c.Set(cmax)
+			}
+			lo, hi := encodeDec(g.chance(0.5), c, g.bexp())
+			x = dec{lo, hi}
+		}
 		res := emit(0, "Decimal.MarshalBinary", []string{x.String()})
 		recv := g.decimal()
+		apiCall(0, "api.BinRoundTrip", []string{x.String(), recv.String()})
 		if len(res) == 2 {
 			emit(0, "Decimal.UnmarshalBinary", []string{recv.String(), res[0]})
 		}
@@ -295,5 +314,3 @@ func propMode(g *G, prop string, n int) {
 	}
 	f(g, n)
 }
-
-
